@@ -450,6 +450,9 @@ pub fn run_download(cx: &mut Ctx, d: &Download, sess: &mut Session, check_releas
                 if num * size != offset {
                     problems.push(("C08", format!("block number {} x size {} does not match byte offset {}", num, size, offset)));
                 }
+                if resp.payload.len() > size {
+                    problems.push(("C08", format!("block {} carries {} bytes, more than its block size {}", num, resp.payload.len(), size)));
+                }
                 if more && resp.payload.len() != size {
                     problems.push(("C08", format!("non-final block carries {} bytes, block size is {}", resp.payload.len(), size)));
                 }
@@ -981,6 +984,7 @@ pub fn run_pipelined(cx: &mut Ctx, s1: &Script, s2: &Script, m: usize, second_fi
         for (which, o, t, r, spec) in [(1, &o1, &t1[i], &r1, &s1.steps[i].0), (2, &o2, &t2[i], &r2, &s2.steps[i].0)] {
             if o != t {
                 problems.push(("C12", format!("overlapping exchanges: transfer {}, exchange {}: observed {:?} but alone it observes {:?}", which, i, o, t)));
+                problems.push(("C20", format!("the state of transfer {} did not survive a request for another key made between its request and its reply (expiry not elapsed): exchange {} observed {:?} but alone it observes {:?}", which, i, o, t)));
             }
             if let Some(rp) = &r.resp {
                 if rp.header.message_id != spec.mid || rp.get_token() != &spec.tok[..] {
@@ -1590,6 +1594,42 @@ pub fn run(cx: &mut Ctx) {
             report(cx, &sess, problems);
         }
     }
+    // a transfer restarted on a key that still holds an abandoned cached response with OTHER options: every
+    // block of the new transfer repeats exactly the new reply's options
+    for shape in shapes.iter().take(2) {
+        for (old_opts, new_opts) in [
+            (vec![(4u16, vec![0xEEu8; 4])], vec![]),
+            (vec![(4u16, vec![1]), (8, b"old".to_vec()), (14, vec![60])], vec![(8u16, b"new".to_vec())]),
+            (vec![(12u16, vec![50])], vec![(4u16, vec![2])]),
+        ] {
+            let mut sess = Session::new(96, 60000);
+            sess.step(Op::Req(1, shape.spec(1, None, None, &[])));
+            sess.step(Op::App(0x45, old_opts.clone(), body_of(&mut rng, 400)));
+            // abandoned after block 0; the client starts over
+            run_download(cx, &Download { shape, ep: 1, m: 96, body: body_of(&mut rng, 300), resp_opts: new_opts.clone(), first_szx: None, reduce_at: None, followup_toks: vec![] }, &mut sess, true);
+        }
+    }
+    // many values of one option (a 16-segment Uri-Path on the requests, ten Location-Path values on the reply):
+    // budgets in a band below and above every power-of-two boundary
+    {
+        let long = ReqShape { typ: 0, code: 3, tok: vec![0xab, 0xcd], path: (0..16).map(|i| vec![b's', b'a' + i as u8]).collect(), extra: vec![] };
+        let ov_req = overhead_of(&long.spec(1, Some(bv_bytes(1, true, 6)), None, &[]).build());
+        for j in 4..=7u32 {
+            for delta in -4i64..=3 {
+                let m = (ov_req as i64 + 12 + (1i64 << j) + delta) as usize;
+                if m > 1280 {
+                    continue;
+                }
+                let szx = 6u8;
+                let mut sess = Session::new(m, 60000);
+                run_upload(cx, &Upload { shape: &long, ep: 1, m, body: body_of(&mut rng, 3 * (1usize << j) + 7), szx, dups: vec![1], abandoned: None, dup_final: 0, fresh_tokens: false }, &mut sess);
+                let ropts: Vec<(u16, Vec<u8>)> = (0..10).map(|i| (8u16, vec![b'l', b'0' + i as u8])).collect();
+                let get = ReqShape { code: 1, ..long.clone() };
+                let mut sess = Session::new(m, 60000);
+                run_download(cx, &Download { shape: &get, ep: 1, m, body: body_of(&mut rng, 5 * (1usize << j) + 3), resp_opts: ropts, first_szx: Some(6), reduce_at: None, followup_toks: vec![] }, &mut sess, false);
+            }
+        }
+    }
     // isolation under load: other keys (another endpoint, another path, another method) hold unfinished
     // uploads of 17 KiB and more in total – this key's upload and download run as if they were alone
     for (i, shape) in shapes.iter().take(2).enumerate() {
@@ -1603,6 +1643,23 @@ pub fn run(cx: &mut Ctx) {
             }
             let post = ReqShape { code: 2, ..shape.clone() };
             let szx = [6u8, 2][i % 2];
+            // the same scripted upload alone and under load: it observes the same replies (C12)
+            {
+                let body = body_of(&mut rng, 3 * (16usize << szx) + 5);
+                let sc = upload_script(&post, 1, &body, szx, 900);
+                let mut alone = Session::new(1152, 60000);
+                let mut t_alone: Vec<String> = vec![];
+                let mut t_loaded: Vec<String> = vec![];
+                for idx in 0..sc.steps.len() {
+                    t_alone.extend(run_script_ops(&mut alone, &sc, idx));
+                    t_loaded.extend(run_script_ops(&mut sess, &sc, idx));
+                }
+                if t_alone != t_loaded {
+                    let at = t_alone.iter().zip(t_loaded.iter()).position(|(a, b)| a != b).unwrap_or(0);
+                    let problems = vec![("C12", format!("an upload running while other keys hold {} KiB of unfinished uploads observes {:?} at step {} but alone it observes {:?}", n_blocks * n_keys, t_loaded.get(at), at, t_alone.get(at)))];
+                    report(cx, &sess, problems);
+                }
+            }
             run_upload(cx, &Upload { shape: &post, ep: 1, m: 1152, body: body_of(&mut rng, 3 * (16usize << szx) + 5), szx, dups: vec![1], abandoned: None, dup_final: 0, fresh_tokens: false }, &mut sess);
             let mut sess2 = Session::new(1152, 60000);
             for k in 0..n_keys {
@@ -2101,6 +2158,29 @@ pub fn run(cx: &mut Ctx) {
                 report(cx, &sess, problems);
             }
         }
+    }
+    // once expired, a follow-up for a LATER block reaches the application like a fresh request – for every method
+    for code in [1u8, 2, 3, 4, 5, 6, 7, 9] {
+        let shape = ReqShape { code, ..shapes[0].clone() };
+        let mut sess = Session::new(64, 40);
+        let mut problems: Vec<(&'static str, String)> = vec![];
+        let body = body_of(&mut rng, 100);
+        sess.step(Op::Req(1, shape.spec(1, None, None, &[])));
+        let a = sess.step(Op::App(0x45, vec![], body.clone()));
+        sess.step(Op::Tick(200));
+        for num in [1usize, 3] {
+            let o = sess.step(Op::Req(1, shape.spec(9 + num as u16, None, Some(bv_bytes(num, false, 0)), &[])));
+            if a.outcome == Outcome::Ok(true) && o.outcome != Outcome::Ok(false) {
+                problems.push(("C20", format!("method code {}: a follow-up for block {} after the cached response expired was not passed to the application like a fresh request: {}", code, num, o.outcome.token())));
+            }
+        }
+        // … and the same for a key that never had any state
+        let never = ReqShape { path: vec![b"never".to_vec()], ..shape.clone() };
+        let o = sess.step(Op::Req(1, never.spec(30, None, Some(bv_bytes(2, false, 0)), &[])));
+        if o.outcome != Outcome::Ok(false) {
+            problems.push(("C08", format!("method code {}: a request naming block 2 for a key without state was not passed to the application: {}", code, o.outcome.token())));
+        }
+        report(cx, &sess, problems);
     }
     // retention with many intervening keys
     for n_other in [1usize, 50, 1100, 2000] {
